@@ -533,6 +533,13 @@ def main() -> int:
         print(text)
     if not p.exists() or p.read_text() != text:
         p.write_text(text)
+    text, problems = py2lean_layout.translate_primitive(Path(args.repo))
+    all_problems += ["[Gen.Primitive] " + x for x in problems]
+    p = outdir / "Primitive.lean"
+    if args.print:
+        print(text)
+    if not p.exists() or p.read_text() != text:
+        p.write_text(text)
     text, problems = py2lean_layout.translate_rules(Path(args.repo))
     all_problems += ["[Gen.Rules] " + x for x in problems]
     p = outdir / "Rules.lean"
